@@ -2,9 +2,12 @@
   Property C19 — namespaced maps and metadata desugar exactly (Clojure extensions).
   Theorem part: the metadata merge (unique keys, outer annotation wins), transparency of
   metadata for the target's value, equality and hash, a marker lacking its annotation or its
-  target is an error, and the key rewriting of namespaced maps.
+  target is an error, the target and annotation gates, the key rewriting of namespaced maps, and
+  the desugaring of a namespaced map: the same reading as the plain map over the same body with
+  every key passed through the qualification before the duplicate check.
 -/
 import Edn.Proofs.MetaMerge
+import Edn.Proofs.NsMap
 
 namespace Edn.Properties.C19
 open Edn.Model Edn.Spec Edn.Proofs
@@ -68,5 +71,47 @@ theorem key_qualification (p : Bytes) (h : Hdr) (md : Option Val) (name : Bytes)
     qualifyKey p (.sym h md (some other) name) = .sym h md (some other) name ∧
     qualifyKey p (.int h 5) = .int h 5 := by
   simp [qualifyKey, ho]
+
+/-- `#:p{ body }` against `{ body }`: both fail with the same error before the closing brace;
+    otherwise both hold the same values, the namespaced one holds the plain one's keys passed
+    through `qualifyKey p`, and the duplicate-key verdict is taken after qualification (so
+    keys that collide only after qualification are rejected) -/
+theorem namespaced_map_desugars (ctx : Ctx) (f d : Nat) (dm : Bool) (start : Nat) (p : Bytes) (st : St) :
+    (∀ r, mapLoop ctx f d dm start st = .error r →
+        readMap ctx f d dm start (some p) st [] [] = r ∧ readMap ctx f d dm start none st [] [] = r) ∧
+    (∀ nk nv stf, mapLoop ctx f d dm start st = .ok (nk, nv, stf) →
+        readMap ctx f d dm start (some p) st [] [] = closeMap ctx start (nk.map (qualifyKey p)) nv stf ∧
+        readMap ctx f d dm start none st [] [] = closeMap ctx start nk nv stf) :=
+  nsmap_desugars ctx f d dm start p st
+
+/-- after `#` the reader expects an unqualified keyword, optional blanks and `{`, and then runs
+    the map reader with that keyword's name as the prefix -/
+theorem namespaced_map_prefix (ctx : Ctx) (f d : Nat) (dm : Bool) (start : Nat) (st st' : St) (h : Hdr) (name r : Bytes)
+    (hk : readValue ctx f d dm st = .ok (.kw h none name) st') (hb : skipWs st'.rest = 0x7B :: r) :
+    readNsMap ctx (f + 1) d dm start st = readMap ctx f d dm start (some name) { st' with rest := r } [] [] :=
+  readNsMap_is_readMap ctx f d dm start st st' h name r hk hb
+
+/-- any other prefix form is a syntax error -/
+theorem namespaced_map_bad_prefix (ctx : Ctx) (f d : Nat) (dm : Bool) (start : Nat) (st st' : St) (v : Val)
+    (hk : readValue ctx f d dm st = .ok v st') (hv : ∀ h name, v ≠ .kw h none name) :
+    readNsMap ctx (f + 1) d dm start st = .err (mkErr .invalidSyntax (some start) (some st'.rest.length)) st' :=
+  readNsMap_bad_prefix ctx f d dm start st st' v hk hv
+
+/-- metadata is accepted only on collections, symbols and tagged values; on those the result is
+    the target with the merged map attached and its range extended to the marker -/
+theorem metadata_target_gate (ctx : Ctx) (f d : Nat) (dm : Bool) (start : Nat) (st st' st'' : St) (m form : Val) (nks nvs : List Val)
+    (h : readValue ctx f (d + 1) dm st = .ok m st') (hm : metaEntries m = some (nks, nvs))
+    (h2 : readValue ctx f (d + 1) dm st' = .ok form st'') :
+    readMeta ctx (f + 1) d dm start st =
+      if form.metaTarget then
+        .ok ((attachMeta ctx.cfg m form nks nvs).setHdr { (attachMeta ctx.cfg m form nks nvs).hdr with s := start }) st''
+      else .err (mkErr .invalidSyntax (some start) (some st''.rest.length)) st'' :=
+  meta_target_gate ctx f d dm start st st' st'' m form nks nvs h hm h2
+
+/-- an annotation that is not a map, keyword, string, symbol or vector is an error -/
+theorem metadata_annotation_gate (ctx : Ctx) (f d : Nat) (dm : Bool) (start : Nat) (st st' : St) (m : Val)
+    (h : readValue ctx f (d + 1) dm st = .ok m st') (hm : metaEntries m = none) :
+    readMeta ctx (f + 1) d dm start st = .err (mkErr .invalidSyntax (some start) (some st'.rest.length)) st' :=
+  meta_annotation_gate ctx f d dm start st st' m h hm
 
 end Edn.Properties.C19
